@@ -55,6 +55,10 @@ def gen_atom(rng, tasks):
     if kind == 'partial':
         # tracked values that are only partially ordered: sets (by inclusion) and NaN
         roll = rng.random()
+        if roll < 0.15:
+            # records whose revisions are all equal (==) to each other but ordered by priority
+            return {'k': 'tracked', 'i': 5, 'cmp': rng.choice(['lt', 'le', 'ge', 'gt']),
+                    'v': {'coarse': [0, rng.randint(0, 3)]}}
         if roll < 0.3:
             # enum-like values: objects that have an attribute `value` themselves
             return {'k': 'tracked', 'i': 4, 'cmp': rng.choice(['lt', 'le', 'eq', 'ne', 'ge', 'gt']),
@@ -129,7 +133,7 @@ def build(case):
     # its pairs  now + (date - now)  is not the date
     rng.scale = 0 if case['index'] % 4 == 3 else 1
     ids = Ids()
-    objects = {'flags': 3, 'tracked': [0, 1, {'set': [1]}, 1.0, {'mode': 1}],
+    objects = {'flags': 3, 'tracked': [0, 1, {'set': [1]}, 1.0, {'mode': 1}, {'coarse': [0, 1]}],
                'resources': [{'kind': 'resources', 'levels': {'a': 2, 'b': 1}}]}
     n_tasks = rng.choice([0, 0, 1, 2])
     tasks = ['T%d' % index for index in range(n_tasks)]
@@ -167,7 +171,10 @@ def gen_driver(rng, ids):
                 driver.append({'op': 'setflag', 'f': rng.randrange(3), 'v': rng.random() < 0.6,
                                'via_inverse': rng.random() < 0.25, 'id': ids('d')})
             elif roll < 0.55:
-                if rng.random() < 0.3:
+                if rng.random() < 0.25:
+                    driver.append({'op': 'settracked', 'i': 5, 'id': ids('d'),
+                                   'v': {'coarse': [0, rng.randint(0, 3)]}})
+                elif rng.random() < 0.3:
                     driver.append({'op': 'settracked', 'i': 4, 'id': ids('d'),
                                    'v': {'mode': rng.randint(0, 3)}})
                 elif rng.random() < 0.6:
